@@ -60,7 +60,7 @@ def family_small(n, seed, with_ad=True):
     return out
 
 
-def cyclic_family(n, seed, evidence=0.5, neg=0.1, neg_derived=0.0):
+def cyclic_family(n, seed, evidence=0.5, neg=0.1, neg_derived=0.0, undefined=0.0):
     """Propositional programs with dense POSITIVE cycles and shared sub-goals: 3-4 facts, 4-6 derived atoms with 1-3
     clauses of 1-2 literals each, 2-3 queries, optional evidence ON DERIVED (cyclic) atoms, rare stratified negation
     (only of facts).  Targets cycle breaking (memo reuse), evidence below cycles and node sharing between goals."""
@@ -87,6 +87,21 @@ def cyclic_family(n, seed, evidence=0.5, neg=0.1, neg_derived=0.0):
                             b.append(lit(atom(rng.choice(facts)), 0 if rng.random() < neg else 1))
                 bodies.append(b)
                 p["rules"].append({"head": atom(d), "body": b})
+        if rng.random() < 0.4:
+            # body disjunctions (A ; B), possibly on a cycle and with both disjuncts giving the same answer
+            for name in ["o1", "o2"][:rng.randint(1, 2)]:
+                for _ in range(2):
+                    p["rules"].append({"head": atom(name), "body": [lit(atom(rng.choice(der + facts)))]})
+                tgt = rng.choice([r for r in p["rules"] if r["head"]["f"] in der])
+                tgt["body"].insert(rng.randint(0, len(tgt["body"])), lit(atom(name)))
+                p.setdefault("inline", []).append(name)
+        if rng.random() < undefined:
+            # a sibling clause that raises (undefined predicate) next to clauses that succeed
+            tgt = rng.choice(der)
+            pos = rng.randint(0, len(p["rules"]))
+            p["rules"].insert(pos, {"head": atom(tgt), "body": [lit(atom("zz_undefined"))] + ([lit(atom(rng.choice(facts)))] if rng.random() < 0.5 else [])})
+            if rng.random() < 0.5:
+                p["rules"].insert(rng.randint(0, len(p["rules"])), {"head": atom(tgt), "body": []})     # deterministic proof
         for q in rng.sample(der, rng.randint(2, 3)):
             p["queries"].append(atom(q))
         if rng.random() < 0.35:
